@@ -215,12 +215,6 @@ def pairB {α β : Type} (f : BR α) (g : BR β) : BR (α × β) := fun buf =>
     | .error e => .error e
     | .ok (b, r2) => .ok ((a, b), r2)
 
-/-- `readZiplistLength`: Seek(8,0), two bytes little endian. Returns (count, buffer positioned at offset 10). -/
-def zlLength (zl : Bytes) : Except DErr (Nat × Bytes) :=
-  match bSlice 2 (zl.drop 8) with
-  | .error e => .error e
-  | .ok (b, r) => .ok (leNat b, r)
-
 /-- `readZiplistEntry` after the prevlen field: header byte and payload -/
 def zlBody : BR Bytes := fun r1 =>
   match r1 with
@@ -269,6 +263,32 @@ def zlEntry : BR Bytes := fun buf =>
   match buf with
   | [] => .error .eof
   | p :: r0 => zlBody (if p.toNat = 254 then r0.drop 4 else r0)          -- skip the 4-byte prevlen
+
+/-- the counting loop of `readZiplistLength` behind the 65535 marker ("65535 or more"): entries are read and
+    dropped up to the 0xFF end byte.  `fuel`: every entry takes at least one byte. -/
+def zlCount : Nat → Bytes → Nat → Except DErr Nat
+  | 0, _, _ => .error .eof
+  | fuel + 1, buf, acc =>
+    match buf with
+    | [] => .error .eof
+    | b :: _ =>
+      if b.toNat = 255 then .ok acc
+      else
+        match zlEntry buf with
+        | .error e => .error e
+        | .ok (_, r) => zlCount fuel r (acc + 1)
+
+/-- `readZiplistLength`: Seek(8,0), two bytes little endian; 65535 = count by walking the entries, then Seek(10,0).
+    Returns (count, buffer positioned at offset 10). -/
+def zlLength (zl : Bytes) : Except DErr (Nat × Bytes) :=
+  match bSlice 2 (zl.drop 8) with
+  | .error e => .error e
+  | .ok (b, r) =>
+    if leNat b < 65535 then .ok (leNat b, r)
+    else
+      match zlCount (r.length + 1) r 0 with
+      | .error e => .error e
+      | .ok n => .ok (n, r)
 
 /-- one member of an intset of width `intSize` bytes: little-endian two's complement, rendered in decimal -/
 def intsetElem (intSize : Nat) : BR Bytes := fun buf =>
